@@ -95,6 +95,12 @@ CLAIMED["C17"] = dict(
    note="Quadratic Hamiltonians (GaussianHamiltonian) are not in the catalogue; gates on consecutive modes only.",
    technique="exact TLA+ exterior-algebra semantics + TLC invariants; behaviours replayed on both fermionic simulators",
    engine="PqFermi")
+CLAIMED["C19"] = dict(
+   category="model_checking", design_ref="§3 C19",
+   text="PqQubit.tla: exact semantics (fractions over Z[sqrt2, i]) of circuits over h, x, y, z, rx, ry, rz, u, p (lattice angles), cz, cx, measurement as nondeterministic projection and classically conditioned gates; TLC enumerates every circuit with <= 2 (thorough 3) gates on 1-2 (3) qubits with an optional mid-circuit measurement and EVERY outcome history, checks norm / weight invariants and exports exact history weights. Replay: each circuit is built in Qiskit (classical bits assigned by position and by qubit index), translated by dual_rail_encode_from_qiskit and executed on PureFockSimulator with shots=None; branch weights post-selected on the dual-rail code space and renormalised must equal the exact distribution (1e-9 without cz/cx, 2e-3 with the fixed KLM angles).",
+   note="The heralded CZ is specified only by its action on the code space; instruction-list equality with a gadget table is not checked (semantics is).",
+   technique="exact TLA+ qubit semantics with all outcome histories + TLC; circuits replayed through the Qiskit translation on PureFockSimulator",
+   engine="PqQubit")
 NOT_APPLICABLE_REASON = {}
 def main():
     checks = []
